@@ -1,7 +1,288 @@
-//! C16: not built yet.
-use anyhow::{bail, Result};
-use serde_json::Value;
+//! C16: parsers fail with an error, never crash.
+//!
+//! A fault case {"op":"fault","target":t,"seed":id,"ops":[..]} is applied to the seed's bytes and the target parser is run in a
+//! child process (address space limited by `ulimit -v`, wall clock limited by the parent); the outcome is data:
+//!   {"out":"ok"|"err"|"panic"|"timeout"|"crash", "where": panic location | crash hint, "write": "ok"|"err"|"panic"|"-"}
+//! targets: class (duke::read_class, then write_class of what was read), tiny, tinydiff, enigma, nests, fdesc / mdesc / rdesc
+//! byte ops : ["set", span index, value] (big endian into the span), ["trunc", n], ["byte", offset, value]
+//! text ops : ["dropcell", line, cell] ["addcell", line] ["emptycell", line, cell] ["indent", line, delta] ["tag", line]
+//!            ["dupline", line] ["delline", line] ["nonutf8", line] ["trunc", n]
+//! char ops : ["delchar", i] ["dupchar", i] ["setchar", i, s]
+use std::io::{BufRead, BufReader, Write};
+use std::process::{Child, ChildStdin, Command, Stdio};
+use std::sync::mpsc::{channel, Receiver};
+use std::sync::Mutex;
+use std::time::Duration;
+use anyhow::{anyhow, bail, Context, Result};
+use rand::rngs::StdRng;
+use rand::{Rng, SeedableRng};
+use serde_json::{json, Value};
 
-pub fn exec(_v: &Value) -> Result<Value> { bail!("C16: driver not built") }
+pub struct Seed { pub id: String, pub target: &'static str, pub bytes: Vec<u8>, pub spans: Vec<cfkit::parse::Span> }
 
-pub fn gen(_seed: u64, _n: usize) -> Result<Vec<Value>> { bail!("C16: driver not built") }
+const QUICK_SAMPLES: &[&str] = &["minimal_object", "exception_table", "switches", "frames_each_kind", "annotations_all_element_kinds", "type_annotations_code",
+	"indy_condy_unreferenced_bootstrap", "inner_classes", "local_variable_tables", "record", "module_info", "invokes", "wide_locals"];
+
+const TINY: &str = "tiny\t2\t0\tofficial\tnamed\nc\tA\tx/A\n\tc\tclass comment\\nsecond line\n\tf\tI\tf\tfield\n\t\tc\tfield comment\n\tm\t(LA;)V\tm\tmethod\n\t\tp\t1\t\targ\n\t\t\tc\tparam comment\nc\tA$B\tx/A$B\n";
+const TINYDIFF: &str = "tiny\t2\t0\nc\tA\tx/A\tx/Renamed\n\tc\told comment\tnew comment\n\tf\tI\tf\tfield\t\n\tm\t(LA;)V\tm\t\tadded\n\t\tp\t1\t\targ\targ2\nc\tNew\t\tx/New\n";
+const ENIGMA: &str = "CLASS A x/A\n\tCOMMENT class comment\n\tFIELD f field I\n\t\tCOMMENT field comment\n\tMETHOD m method (LA;)V\n\t\tARG 1 arg\n\t\t\tCOMMENT param comment\n\tCLASS B B\n\t\tMETHOD <init> ()V\n# trailing comment\n";
+const NESTS: &str = "a\tb\tm\t()V\t1\t0x0008\nc\tb\t\t\tInner\t9\nd\tc\tn\t(I)V\t1Local\t0b101\n";
+const DESCS: &[(&str, &str)] = &[("fdesc", "[[Ljava/lang/String;"), ("fdesc", "I"), ("mdesc", "(I[JLa/b;)Lc;"), ("mdesc", "()V"), ("rdesc", "V"), ("rdesc", "[La$b;")];
+
+pub fn seeds(tier: &str) -> Result<Vec<Seed>> {
+	let mut out = vec![];
+	for (name, facts) in cfkit::samples::sample_classes() {
+		if tier != "thorough" && !QUICK_SAMPLES.contains(&name.as_str()) { continue; }
+		let Ok(bytes) = cfkit::asm::assemble(&facts, &cfkit::asm::Encoding::default()) else { continue };
+		let Ok(p) = cfkit::parse::parse_class(&bytes) else { continue };
+		out.push(Seed { id: format!("sample/{name}"), target: "class", bytes, spans: p.spans });
+	}
+	// two small javac classes
+	let mut corpus = cfkit::corpus::corpus_classes("quick");
+	corpus.sort_by_key(|(id, b)| (b.len(), id.clone()));
+	for (id, bytes) in corpus.into_iter().filter(|(id, b)| b.len() > 300 && (id.contains("Lambdas") || id.contains("Switches") || id.contains("Exceptions"))).take(if tier == "thorough" { 6 } else { 2 }) {
+		if let Ok(p) = cfkit::parse::parse_class(&bytes) { out.push(Seed { id: format!("corpus/{id}"), target: "class", bytes, spans: p.spans }); }
+	}
+	for (t, s) in [("tiny", TINY), ("tinydiff", TINYDIFF), ("enigma", ENIGMA), ("nests", NESTS)] {
+		out.push(Seed { id: format!("text/{t}"), target: t, bytes: s.as_bytes().to_vec(), spans: vec![] });
+	}
+	for (i, (t, s)) in DESCS.iter().enumerate() {
+		out.push(Seed { id: format!("desc/{i}"), target: t, bytes: s.as_bytes().to_vec(), spans: vec![] });
+	}
+	Ok(out)
+}
+
+fn sep(target: &str) -> char { if target == "enigma" { ' ' } else { '\t' } }
+fn split_line(target: &str, l: &str) -> (usize, Vec<String>) {
+	let ind = l.chars().take_while(|c| *c == '\t').count();
+	(ind, l[ind..].split(sep(target)).map(|s| s.to_owned()).collect())
+}
+
+/// What TLC needs to enumerate faults: per seed the fields (offset, width, role class, the pool index of the entry a
+/// constant-pool reference sits in) or the line / cell structure.
+pub fn seeds_json(tier: &str) -> Result<Vec<Value>> {
+	let mut out = vec![];
+	for s in seeds(tier)? {
+		let spans: Vec<Value> = s.spans.iter().map(|sp| {
+			let own = sp.path.strip_prefix("cp[").and_then(|r| r.split(']').next()).and_then(|n| n.parse::<u32>().ok()).unwrap_or(0);
+			let val: i64 = if sp.len <= 4 { s.bytes[sp.off..sp.off + sp.len].iter().fold(0i64, |a, b| (a << 8) | *b as i64) } else { 0 };
+			let val = if val > i32::MAX as i64 { -1 } else { val };
+			json!({"off": sp.off, "len": sp.len, "role": sp.role, "cls": sp.class, "own": own, "val": val})
+		}).collect();
+		let text = String::from_utf8_lossy(&s.bytes).to_string();
+		let cells: Vec<usize> = if s.spans.is_empty() && !s.target.ends_with("desc") { text.lines().map(|l| split_line(s.target, l).1.len()).collect() } else { vec![] };
+		out.push(json!({"id": s.id, "target": s.target, "n": s.bytes.len(), "spans": spans, "cells": cells}));
+	}
+	Ok(out)
+}
+
+pub fn apply(seed: &Seed, ops: &Value) -> Result<Vec<u8>> {
+	let mut b = seed.bytes.clone();
+	let textual = seed.spans.is_empty();
+	for op in ops.as_array().context("ops")? {
+		let name = op[0].as_str().context("op name")?;
+		let n = |i: usize| op[i].as_i64().unwrap_or(0);
+		match name {
+			"trunc" => { let k = (n(1).max(0) as usize).min(b.len()); b.truncate(k); },
+			"byte" => { let o = n(1) as usize; if o < b.len() { b[o] = n(2) as u8; } },
+			"set" => {
+				let sp = seed.spans.get(n(1) as usize).context("span index")?;
+				let v = n(2) as u64;
+				for k in 0..sp.len.min(8) {
+					let shift = 8 * (sp.len.min(8) - 1 - k);
+					if sp.off + k < b.len() { b[sp.off + k] = ((v >> shift) & 0xff) as u8; }
+				}
+			},
+			"delchar" | "dupchar" | "setchar" => {
+				let mut cs: Vec<char> = String::from_utf8_lossy(&b).chars().collect();
+				let i = (n(1).max(0) as usize).min(cs.len().saturating_sub(1));
+				if !cs.is_empty() {
+					match name { "delchar" => { cs.remove(i); }, "dupchar" => { let c = cs[i]; cs.insert(i, c); }, _ => { cs[i] = op[2].as_str().and_then(|s| s.chars().next()).unwrap_or('x'); } }
+				}
+				b = cs.into_iter().collect::<String>().into_bytes();
+			},
+			_ if textual => {
+				let text = String::from_utf8_lossy(&b).to_string();
+				let mut lines: Vec<Vec<u8>> = text.lines().map(|l| l.as_bytes().to_vec()).collect();
+				let li = (n(1).max(0) as usize).min(lines.len().saturating_sub(1));
+				if !lines.is_empty() {
+					let (ind, mut cells) = split_line(seed.target, &String::from_utf8_lossy(&lines[li]));
+					let mut ind = ind as i64;
+					let ci = (n(2).max(0) as usize).min(cells.len().saturating_sub(1));
+					let mut raw: Option<Vec<u8>> = None;
+					match name {
+						"dropcell" => { if !cells.is_empty() { cells.remove(ci); } },
+						"addcell" => cells.push("extra".into()),
+						"emptycell" => { cells[ci] = String::new(); },
+						"indent" => { ind = (ind + n(2)).max(0); },
+						"tag" => { cells[0] = "zz".into(); },
+						"dupline" => { let l = lines[li].clone(); lines.insert(li, l); },
+						"delline" => { lines.remove(li); },
+						"nonutf8" => { let mut l = lines[li].clone(); l.extend_from_slice(&[0xff, 0xfe, 0xc0]); raw = Some(l); },
+						o => bail!("unknown text op {o}"),
+					}
+					if matches!(name, "dropcell" | "addcell" | "emptycell" | "indent" | "tag") {
+						let s = format!("{}{}", "\t".repeat(ind as usize), cells.join(&sep(seed.target).to_string()));
+						lines[li] = s.into_bytes();
+					}
+					if let Some(r) = raw { lines[li] = r; }
+				}
+				b = lines.join(&b'\n');
+				b.push(b'\n');
+			},
+			o => bail!("unknown op {o}"),
+		}
+	}
+	Ok(b)
+}
+
+// ---------------------------------------------------------------- child side
+
+thread_local! { static PANIC_AT: std::cell::RefCell<String> = const { std::cell::RefCell::new(String::new()) }; }
+
+fn guarded(f: impl FnOnce() -> bool) -> (String, String) {
+	PANIC_AT.with(|p| p.borrow_mut().clear());
+	match std::panic::catch_unwind(std::panic::AssertUnwindSafe(f)) {
+		Ok(true) => ("ok".into(), String::new()),
+		Ok(false) => ("err".into(), String::new()),
+		Err(_) => ("panic".into(), PANIC_AT.with(|p| p.borrow().clone())),
+	}
+}
+
+fn run_target(target: &str, bytes: &[u8]) -> Value {
+	use quill::tree::NodeInfo;
+	let mut write = ("-".to_owned(), String::new());
+	let (out, wh) = match target {
+		"class" => {
+			let mut tree = None;
+			let r = guarded(|| match duke::read_class(&mut std::io::Cursor::new(bytes)) { Ok(t) => { tree = Some(t); true }, Err(_) => false });
+			if let Some(t) = tree { write = guarded(|| duke::write_class(&mut std::io::Cursor::new(Vec::new()), &t).is_ok()); }
+			r
+		},
+		"tiny" => guarded(|| quill::tiny_v2::read::<2, ()>(bytes).is_ok()),
+		"tinydiff" => guarded(|| {
+			let p = std::path::PathBuf::from(format!("/dev/shm/verif-work/tmp/c16-{}.tinydiff", std::process::id()));
+			let _ = std::fs::create_dir_all("/dev/shm/verif-work/tmp");
+			let _ = std::fs::write(&p, bytes);
+			let r = quill::tiny_v2_diff::read_file(&p).is_ok();
+			let _ = std::fs::remove_file(&p);
+			r
+		}),
+		"enigma" => guarded(|| {
+			let ns = quill::tree::names::Namespaces::try_from(["a".to_owned(), "b".to_owned()]).expect("namespaces");
+			let mut m: quill::tree::mappings::Mappings<2, ()> = quill::tree::mappings::Mappings::new(quill::tree::mappings::MappingInfo { namespaces: ns });
+			quill::enigma_file::read_into(bytes, &mut m).is_ok()
+		}),
+		"nests" => guarded(|| dukenest::nest::Nests::<()>::read(&bytes.to_vec()).is_ok()),
+		"fdesc" | "mdesc" | "rdesc" => {
+			let s = java_string::JavaString::from(String::from_utf8_lossy(bytes).to_string());
+			guarded(|| match target {
+				"fdesc" => duke::tree::field::FieldDescriptor::try_from(s.clone()).ok().map(|d| d.parse().map(|p| { let _ = p.write(); }).is_ok()).unwrap_or(false),
+				"mdesc" => duke::tree::method::MethodDescriptor::try_from(s.clone()).ok().map(|d| d.parse().map(|p| { let _ = p.write(); }).is_ok()).unwrap_or(false),
+				_ => duke::tree::descriptor::ReturnDescriptor::try_from(s.clone()).ok().map(|d| d.parse().map(|p| { let _ = p.write(); }).is_ok()).unwrap_or(false),
+			})
+		},
+		_ => ("err".into(), "unknown target".into()),
+	};
+	json!({"out": out, "where": wh, "write": write.0, "wwhere": write.1})
+}
+
+/// `vharness fault-child`: one case per stdin line, one outcome per stdout line.
+pub fn child_main() -> Result<()> {
+	std::panic::set_hook(Box::new(|info| {
+		let loc = info.location().map(|l| format!("{}:{}", l.file().rsplit("/repo/").next().unwrap_or(l.file()), l.line())).unwrap_or_default();
+		PANIC_AT.with(|p| *p.borrow_mut() = loc);
+	}));
+	let tier = std::env::var("VERIF_TIER_SEEDS").unwrap_or_else(|_| "thorough".into());
+	let all = seeds(&tier)?;
+	let stdin = std::io::stdin();
+	let mut out = std::io::stdout();
+	for line in stdin.lock().lines() {
+		let line = line?;
+		let v: Value = serde_json::from_str(&line)?;
+		let r = match all.iter().find(|s| s.id == v["seed"].as_str().unwrap_or("")) {
+			None => json!({"out": "tool", "where": "unknown seed"}),
+			Some(seed) => match apply(seed, &v["ops"]) { Ok(b) => run_target(seed.target, &b), Err(e) => json!({"out": "tool", "where": e.to_string()}) },
+		};
+		writeln!(out, "{}", r)?;
+		out.flush()?;
+	}
+	Ok(())
+}
+
+// ---------------------------------------------------------------- parent side
+
+struct Proc { child: Child, stdin: ChildStdin, rx: Receiver<String>, err_path: String }
+static PROC: Mutex<Option<Proc>> = Mutex::new(None);
+
+fn spawn() -> Result<Proc> {
+	let exe = std::env::current_exe()?;
+	let err_path = format!("/dev/shm/verif-work/tmp/c16-child-{}.err", std::process::id());
+	let _ = std::fs::create_dir_all("/dev/shm/verif-work/tmp");
+	let errf = std::fs::File::create(&err_path)?;
+	let mut child = Command::new("sh").arg("-c").arg("ulimit -v 3000000; ulimit -s 8192; exec \"$0\" fault-child").arg(exe)
+		.stdin(Stdio::piped()).stdout(Stdio::piped()).stderr(Stdio::from(errf)).spawn()?;
+	let stdin = child.stdin.take().context("child stdin")?;
+	let stdout = child.stdout.take().context("child stdout")?;
+	let (tx, rx) = channel();
+	std::thread::spawn(move || { for l in BufReader::new(stdout).lines().map_while(|l| l.ok()) { if tx.send(l).is_err() { break; } } });
+	Ok(Proc { child, stdin, rx, err_path })
+}
+
+pub fn exec(v: &Value) -> Result<Value> {
+	if v["op"] != "fault" { bail!("C16: unknown op"); }
+	let mut guard = PROC.lock().map_err(|_| anyhow!("lock"))?;
+	if guard.is_none() { *guard = Some(spawn()?); }
+	let p = guard.as_mut().context("proc")?;
+	let line = serde_json::to_string(&json!({"seed": v["seed"], "ops": v["ops"]}))?;
+	let sent = writeln!(p.stdin, "{line}").and_then(|_| p.stdin.flush());
+	let res = if sent.is_ok() { p.rx.recv_timeout(Duration::from_secs(10)).ok() } else { None };
+	match res {
+		Some(l) => {
+			let r: Value = serde_json::from_str(&l)?;
+			if r["out"] == "tool" { bail!("fault-child: {}", r["where"]); }
+			Ok(r)
+		},
+		None => {
+			// no answer: still running (timeout) or dead (crash: stack overflow, out of memory, abort)
+			let dead = p.child.try_wait().ok().flatten();
+			let _ = p.child.kill();
+			let _ = p.child.wait();
+			let err = std::fs::read_to_string(&p.err_path).unwrap_or_default();
+			let hint = if err.contains("overflowed its stack") { "stack overflow" } else if err.contains("memory allocation") { "out of memory" } else { err.lines().last().unwrap_or("").trim() }.to_owned();
+			*guard = None;
+			Ok(match dead { Some(st) => json!({"out": "crash", "where": format!("{hint} ({st})"), "write": "-"}), None => json!({"out": "timeout", "where": "", "write": "-"}) })
+		},
+	}
+}
+
+/// Seeded random faults: byte edits at random offsets (pairs and triples), random truncations, random field values.
+pub fn gen(seed: u64, n: usize) -> Result<Vec<Value>> {
+	let mut r = StdRng::seed_from_u64(seed ^ 0xC16);
+	let tier = std::env::var("VERIF_TIER_SEEDS").unwrap_or_else(|_| "thorough".into());
+	let all = seeds(&tier)?;
+	let mut out = vec![];
+	while out.len() < n {
+		let s = &all[r.gen_range(0..all.len())];
+		let mut ops = vec![];
+		for _ in 0..r.gen_range(1..4) {
+			if !s.spans.is_empty() {
+				match r.gen_range(0..3) {
+					0 => ops.push(json!(["byte", r.gen_range(0..s.bytes.len()), r.gen_range(0..256)])),
+					1 => { let i = r.gen_range(0..s.spans.len()); let w = s.spans[i].len.min(4) as u32; ops.push(json!(["set", i, r.gen::<u32>() as u64 & ((1u64 << (8 * w)) - 1)])); },
+					_ => ops.push(json!(["trunc", r.gen_range(0..s.bytes.len())])),
+				}
+			} else if s.target.ends_with("desc") {
+				let i = r.gen_range(0..s.bytes.len());
+				match r.gen_range(0..3) { 0 => ops.push(json!(["delchar", i])), 1 => ops.push(json!(["dupchar", i])), _ => ops.push(json!(["setchar", i, *crate::gen_quill::pick(&mut r, &["[", "L", ";", "(", ")", "V", "I", "/", ".", "\u{e9}"])])) }
+			} else {
+				let nl = String::from_utf8_lossy(&s.bytes).lines().count().max(1);
+				let l = r.gen_range(0..nl);
+				ops.push(match r.gen_range(0..9) { 0 => json!(["dropcell", l, r.gen_range(0..4)]), 1 => json!(["addcell", l]), 2 => json!(["emptycell", l, r.gen_range(0..4)]), 3 => json!(["indent", l, 1]),
+					4 => json!(["indent", l, -1]), 5 => json!(["tag", l]), 6 => json!(["dupline", l]), 7 => json!(["nonutf8", l]), _ => json!(["trunc", r.gen_range(0..s.bytes.len())]) });
+			}
+		}
+		out.push(json!({"op": "fault", "target": s.target, "seed": s.id, "ops": ops}));
+	}
+	Ok(out)
+}
